@@ -61,6 +61,7 @@ type node struct {
 	name    string
 	stats   map[string]int
 	syncs   int
+	exports []string // genesis export / import observations (export_test.go)
 }
 
 func openDB(backend, dir, name string) (dbm.DB, error) {
@@ -437,6 +438,21 @@ func obsLine(o detx.Obs) string {
 
 // replayMode executes a history on a fresh node in the given mode and returns the observation lines.
 func replayMode(h *detx.History, mode, backend, dir string, rseed int64) ([]string, map[string]int, error) {
+	lines, _, st, err := replayModeX(h, mode, backend, dir, rseed, false)
+	return lines, st, err
+}
+
+// replayModeX: with export, the replica also exports its genesis after the blocks of exportNotes and starts a fresh chain
+// from one of the exports (export_test.go); these observations are returned separately (the generator's own execution has none).
+func replayModeX(h *detx.History, mode, backend, dir string, rseed int64, export bool) ([]string, []string, map[string]int, error) {
+	lines, n, err := replayNode(h, mode, backend, dir, rseed, export)
+	if n == nil {
+		return lines, nil, nil, err
+	}
+	return lines, n.exports, n.stats, err
+}
+
+func replayNode(h *detx.History, mode, backend, dir string, rseed int64, export bool) ([]string, *node, error) {
 	n, err := newNode(h.Genesis, backend, dir, strings.HasPrefix(mode, "statesync"))
 	if err != nil {
 		return nil, nil, err
@@ -447,12 +463,12 @@ func replayMode(h *detx.History, mode, backend, dir string, rseed int64) ([]stri
 		switch mode {
 		case "restart-all":
 			if err = n.restart(); err != nil {
-				return lines, n.stats, err
+				return lines, n, err
 			}
 		case "restart":
 			if rng.Intn(3) == 0 {
 				if err = n.restart(); err != nil {
-					return lines, n.stats, err
+					return lines, n, err
 				}
 			}
 		case "sim":
@@ -464,12 +480,12 @@ func replayMode(h *detx.History, mode, backend, dir string, rseed int64) ([]stri
 		case "statesync", "statesync-all":
 			if mode == "statesync-all" || i == 1 || rng.Intn(4) == 0 {
 				if err = n.stateSync(); err != nil {
-					return lines, n.stats, err
+					return lines, n, err
 				}
 			}
 		case "restart-histq":
 			if err = n.restart(); err != nil {
-				return lines, n.stats, err
+				return lines, n, err
 			}
 			n.historical(rng)
 		case "histq":
@@ -479,7 +495,7 @@ func replayMode(h *detx.History, mode, backend, dir string, rseed int64) ([]stri
 		case "sim-restart":
 			if rng.Intn(4) == 0 {
 				if err = n.restart(); err != nil {
-					return lines, n.stats, err
+					return lines, n, err
 				}
 				if rng.Intn(2) == 0 {
 					n.historical(rng)
@@ -495,6 +511,9 @@ func replayMode(h *detx.History, mode, backend, dir string, rseed int64) ([]stri
 		}
 		o := runBlock(n.c, b)
 		lines = append(lines, blockLine(n.c, o))
+		if export {
+			n.exports = append(n.exports, n.afterBlock(b)...)
+		}
 	}
-	return lines, n.stats, nil
+	return lines, n, nil
 }
